@@ -23,6 +23,7 @@ import (
 	"github.com/echovault/sugardb/internal/constants"
 	"github.com/echovault/sugardb/verifhook"
 	"io"
+	"log"
 	"net"
 	"strings"
 )
@@ -105,6 +106,18 @@ func (server *SugarDB) getHandlerFuncParams(ctx context.Context, cmd []string, c
 	}
 }
 
+// safeHandle runs a command handler and converts a panic inside it into an error reply,
+// so that one bad command cannot take down the whole server (and every other client with it).
+func safeHandle(handler internal.HandlerFunc, params internal.HandlerFuncParams) (res []byte, err error) {
+	defer func() {
+		if r := recover(); r != nil {
+			log.Printf("panic in %s handler: %v\n", params.Command[0], r)
+			res, err = nil, fmt.Errorf("internal error while executing %s", strings.ToLower(params.Command[0]))
+		}
+	}()
+	return handler(params)
+}
+
 func (server *SugarDB) handleCommand(ctx context.Context, message []byte, conn *net.Conn, replay bool, embedded bool) ([]byte, error) {
 	// Prepare context before processing the command.
 	server.connInfo.mut.RLock()
@@ -178,7 +191,7 @@ func (server *SugarDB) handleCommand(ctx context.Context, message []byte, conn *
 	}
 
 	if !server.isInCluster() || !synchronize {
-		res, err := handler(server.getHandlerFuncParams(ctx, cmd, conn))
+		res, err := safeHandle(handler, server.getHandlerFuncParams(ctx, cmd, conn))
 		if err != nil {
 			return nil, err
 		}
